@@ -78,9 +78,13 @@ func runC14(ctx *Ctx) {
 		maxLen = 3
 	}
 	seeds, names := c14Seeds(s, ctx.Thorough)
-	r.Rule = fmt.Sprintf("(a) every octet string of length 0..%d; (b) for each of %d seeds (reference encodings of every message type%s): every prefix, every single-octet substitution (len x 255), every single-bit flip, every 2-octet length form {8000,bfff,c4ff,ffff} at every position%s; "+
+	pairAlphabet, maxGap := []byte{0x00, 0x7f, 0x80, 0xc1, 0xff}, 3
+	if ctx.Thorough {
+		pairAlphabet, maxGap = []byte{0x00, 0x01, 0x7f, 0x80, 0x81, 0xbf, 0xc0, 0xc1, 0xc4, 0xc5, 0xfe, 0xff}, 6
+	}
+	r.Rule = fmt.Sprintf("(a) every octet string of length 0..%d; (b) for each of %d seeds (reference encodings of every message type%s): every prefix, every single-octet substitution (len x 255), every single-bit flip, every 2-octet length form {8000,bfff,c4ff,ffff} at every position, every pair of octets up to %d positions apart replaced by every pair from a %d-value adversarial alphabet (unknown identifiers x fragmented / overlong / zero length determinants)%s; "+
 		"oracle: ngap.Decoder returns (value|error) - no panic, per-call allocation <= %d MiB (schema-legal maximum is ~15 MiB for a 65535-element IE list), per-call time below a %v horizon; each input is decoded in a shard process with an address-space limit; distinct = distinct inputs (hashed); non-trivial = all",
-		maxLen, len(seeds), map[bool]string{true: " and of every value one CHOICE alternative / IE selection away", false: ""}[ctx.Thorough],
+		maxLen, len(seeds), map[bool]string{true: " and of every value one CHOICE alternative / IE selection away", false: ""}[ctx.Thorough], maxGap, len(pairAlphabet),
 		map[bool]string{true: ", every pair of bit flips in the first 24 octets", false: ""}[ctx.Thorough], c14AllocBound>>20, c14Horizon)
 	r.Assume("allocation is measured per batch of 128 calls (runtime.MemStats.TotalAlloc) and per call when a batch exceeds the bound", "coverage-guided fuzzing named in the property's quantifier text is a different technique family and is not used")
 	if !ctx.IsChild() {
@@ -196,6 +200,22 @@ func runC14(ctx *Ctx) {
 					m := append([]byte{}, seed...)
 					m[pos], m[pos+1] = two[0], two[1]
 					feed(m)
+				}
+			}
+		}
+		// pairs of adversarial octets a short distance apart (an identifier / choice / count octet made unknown AND the
+		// length determinant next to it made adversarial: faults that need two fields wrong at once)
+		for pos := range seed {
+			for gap := 1; gap <= maxGap && pos+gap < len(seed); gap++ {
+				for _, a := range pairAlphabet {
+					for _, b := range pairAlphabet {
+						if a == seed[pos] || b == seed[pos+gap] {
+							continue // single substitutions are covered above
+						}
+						m := append([]byte{}, seed...)
+						m[pos], m[pos+gap] = a, b
+						feed(m)
+					}
 				}
 			}
 		}
